@@ -355,6 +355,8 @@ def encode_traces(rep, prop, tier, seed):
             for proto, t in r["traces"].items():
                 for u in t["unmodelled"]:
                     unmodelled[u] = unmodelled.get(u, 0) + 1
+                if t.get("guard_ok") is False and prop in ("C11", "C02"):
+                    rep.violation({"check": "gen-trace-guard", "proto": proto, "unit": m["unit"]}, {"generated_type": m, "note": "bytes behind the exact-size buffer were modified"})
                 runs += 1
                 f.write(json.dumps({"op": "reset", "run": runs, "dir": "w", "p": proto, "buf": "bytesmut", "err": t["err"], "gen": m}) + "\n")
                 for ev in t["events"]:
@@ -367,7 +369,7 @@ def encode_traces(rep, prop, tier, seed):
     for r in rejections:
         op = r["event"].get("op", "")
         owner = "C04" if op.startswith("l_") or op == "end" else "C02"
-        if owner == prop:
+        if owner == prop or (prop == "C11" and r["run_head"].get("p") == "unsafe"):
             n += 1
             g = r["run_head"].get("gen", {})
             rep.violation({"check": "gen-trace-rejected", "proto": r["run_head"].get("p"), "op": op, "unit": g.get("unit")},
@@ -390,7 +392,7 @@ def decode_traces(rep, prop, tier, seed):
     import thrift_rt as rt
     cases, res, units, cst = results(tier, seed)
     touches = argtype_touches(corpus_for(tier, seed))
-    want = {"C02": ("base", ("", "k")), "C08": ("evo", ("",)), "C13": ("evo", ("k",))}[prop]
+    want = {"C02": ("base", ("", "k")), "C08": ("evo", ("",)), "C13": ("evo", ("k",)), "C11": ("evo", ("", "k"))}[prop]
     pool = [(ci, cs) for ci, cs in enumerate(cases) if cs["kind"] == want[0] and not (cs["kind"] == "evo" and cs["how"] == "retype" and cs["isunion"])]
     rnd = random.Random(seed + 78)
     rnd.shuffle(pool)
@@ -406,9 +408,10 @@ def decode_traces(rep, prop, tier, seed):
             if path is None:
                 continue
             reqs.append({"id": len(reqs), "ty": path, "op": "trace_decode",
-                         "inputs": {"bin": cs["bin"] + TRAILER, "binle": cs["binle"] + TRAILER, "compact": cs["cs"] + TRAILER}})
+                         "inputs": {"bin": cs["bin"] + TRAILER, "binle": cs["binle"] + TRAILER, "compact": cs["cs"] + TRAILER,
+                                    "unsafe": cs["bin"] + TRAILER}})
             meta.append({"schema": cs["sid"] + suffix, "type": cs["ty"], "kind": cs["kind"], "how": cs["how"], "unit": "keep" if suffix else "plain",
-                         "lens": {"bin": len(cs["bin"]), "binle": len(cs["binle"]), "compact": len(cs["cs"])},
+                         "lens": {"bin": len(cs["bin"]), "binle": len(cs["binle"]), "compact": len(cs["cs"]), "unsafe": len(cs["bin"])},
                          "inputs": reqs[-1]["inputs"]})
     out = gen.run_worker(reqs, tag="gdtrace")
     tp = os.path.join(c.OUT, f"gendtrace-{os.getpid()}.ndjson")
@@ -436,6 +439,8 @@ def decode_traces(rep, prop, tier, seed):
     os.remove(tp)
     for r in rejections:
         g = r["run_head"].get("gen", {})
+        if prop == "C11" and r["run_head"].get("p") != "unsafe":
+            continue
         rep.violation({"check": "gen-decode-trace-rejected", "proto": r["run_head"].get("p"), "op": r["event"].get("op", ""), "unit": g.get("unit"), "how": g.get("how")},
                       {"generated_type": g, "rejected_at": r["line_in_run"], "event": r["event"], "run": r["run_lines"][:80]})
     return {"emitted_decoder_call_traces": {"runs_validated": nruns, "events_validated": events, "rejections": len(rejections),
